@@ -36,6 +36,7 @@ func TestMain(m *testing.M) {
 var ctx = context.Background()
 
 type backend struct {
+	failFetch   func() // SQL only: the next row fetch of a query fails (connection drop mid-fetch)
 	name        string
 	ms          appencryption.Metastore
 	suffix      string // expected GetRegionSuffix()
@@ -63,7 +64,8 @@ func newBackend(t *rapid.T, name string) *backend {
 				opts = append(opts, persistence.WithSQLMetastoreDBType(persistence.MySQL))
 			}
 		}
-		return &backend{name: name, ms: persistence.NewSQLMetastore(db, opts...), cleanup: func() { db.Close(); fake.Forget() }, unsupported: func() []string { return fake.Unsupported }}
+		return &backend{name: name, ms: persistence.NewSQLMetastore(db, opts...), cleanup: func() { db.Close(); fake.Forget() }, unsupported: func() []string { return fake.Unsupported },
+			failFetch: func() { fake.FailNextFetch() }}
 	default:
 		table := rapid.SampledFrom([]string{"", "EncryptionKey", "CustomTable", "enc_keys-2"}).Draw(t, "table")
 		region := rapid.SampledFrom([]string{"us-west-2", "eu-central-1"}).Draw(t, "region")
@@ -134,7 +136,7 @@ func TestModel(t *testing.T) {
 		defer b.cleanup()
 		ids := rapid.SliceOfNDistinct(rapid.SampledFrom(idPool), 1, 3, rapid.ID[string]).Draw(t, "ids")
 		base := int64(1_600_000_000 + rapid.IntRange(0, 100_000_000).Draw(t, "base"))
-		stamps := []int64{base, base + 1, base + 2, base + 60, base + 3600}
+		stamps := []int64{0, base, base + 1, base + 2, base + 60, base + 3600}
 		model := map[string]map[int64]rec{}
 		var trace []string
 		dupStore, latestMulti, deadStore := false, false, false
@@ -247,6 +249,22 @@ func TestModel(t *testing.T) {
 					}
 					trace = append(trace, fmt.Sprintf("LoadLatest[dead ctx](%q)", id))
 					_, _ = b.ms.LoadLatest(dead, id)
+				}
+				if b.failFetch != nil && rapid.IntRange(0, 9).Draw(t, "fetchFails") == 4 {
+					// the statement is accepted but fetching the row fails: that is an error, never "not stored"
+					_, exists := model[id][created]
+					b.failFetch()
+					trace = append(trace, fmt.Sprintf("Load[row fetch fails](%q,%d)", id, created))
+					if got, err := b.ms.Load(ctx, id, created); err == nil && got == nil && exists {
+						bad("Load reported a stored (id, created) as absent (nil, nil) when fetching its row failed: a failed read must be an error")
+					}
+					if len(model[id]) > 0 {
+						b.failFetch()
+						trace = append(trace, fmt.Sprintf("LoadLatest[row fetch fails](%q)", id))
+						if got, err := b.ms.LoadLatest(ctx, id); err == nil && got == nil {
+							bad("LoadLatest reported an id with stored versions as empty (nil, nil) when fetching the row failed")
+						}
+					}
 				}
 				trace = append(trace, fmt.Sprintf("Load(%q,%d)", id, created))
 				got, err := b.ms.Load(ctx, id, created)
